@@ -93,6 +93,9 @@ type Mask struct {
 
 	// mask metric
 	appliedMetric *metric.CounterVec
+
+	// sections is a buffer for the group ranges of one match in maskValue
+	sections [][2]int
 }
 
 func compileMasks(masks []Mask, logger *zap.Logger) []Mask {
@@ -206,12 +209,26 @@ func (m *Mask) maskValue(value, buf []byte) ([]byte, bool) {
 	buf = buf[:0]
 
 	prevFinish := 0
-	curStart, curFinish := 0, 0
 	for _, index := range indexes {
+		// sections of the match to mask, ordered by position: groups can be listed
+		// in any order, can be nested and a repeated group can sit before a group
+		// with a smaller number
+		m.sections = m.sections[:0]
 		for _, grp := range m.Groups {
-			curStart = index[grp*2]
-			curFinish = index[grp*2+1]
-			if curStart < 0 || curFinish < 0 { // invalid idx check
+			curStart, curFinish := index[grp*2], index[grp*2+1]
+			if curStart < 0 || curFinish < 0 { // the group did not participate in the match
+				continue
+			}
+			i := len(m.sections)
+			m.sections = append(m.sections, [2]int{curStart, curFinish})
+			for ; i > 0 && sectionLess(m.sections[i], m.sections[i-1]); i-- {
+				m.sections[i], m.sections[i-1] = m.sections[i-1], m.sections[i]
+			}
+		}
+
+		for _, section := range m.sections {
+			curStart, curFinish := section[0], section[1]
+			if curStart < prevFinish { // inside of the section masked before (nested group)
 				continue
 			}
 
@@ -227,5 +244,13 @@ func (m *Mask) maskValue(value, buf []byte) ([]byte, bool) {
 		}
 	}
 
-	return append(buf, value[curFinish:]...), true
+	return append(buf, value[prevFinish:]...), true
+}
+
+// sectionLess orders sections by start, the outer one of two nested sections first.
+func sectionLess(a, b [2]int) bool {
+	if a[0] != b[0] {
+		return a[0] < b[0]
+	}
+	return a[1] > b[1]
 }
